@@ -23,7 +23,7 @@ import kani  # noqa: E402
 from extract import AnchorLost  # noqa: E402
 
 REPO = os.environ.get('VERIF_REPO', '/repo')
-WORK = os.path.join(VERIF, 'work')
+WORK = os.environ.get('VERIF_WORK') or os.path.join(VERIF, 'work')
 
 
 class Undecided(Exception):
